@@ -102,4 +102,23 @@ theorem decompose_siteMapped : ∀ (raw : List RawLevel) (L : List ConvLevel) (T
         · exact decompose_siteMapped (r' :: rs) ls T' hrec l hl
       · cases h
 
+/-- The hypotheses of `C12_stack_partial` as one decidable test on a decomposed recorded run. -/
+def stackHypsB (api U : String) (L : List ConvLevel) (T : List Frame) : Bool :=
+  decide (∀ l ∈ L, KeysInGen l) && decide (BelowForeign L T) && decide (∀ l ∈ L, SiteResolved U l)
+    && decide (api ≠ U) && decide (∀ f ∈ (lastBelow L T).take ((lastBelow L T).length - T.length), f.file ≠ U)
+
+/-- The class predicates of the stack findings, as evaluated by the driver on the recorded levels
+(innermost first; `genFiles` = file of each level's conversion). -/
+def reentered (genFiles : List String) : Bool := !(genFiles.eraseDups.length == genFiles.length)
+
+/-- Some frame of the traceback lying outside the level's generated file is a key of the level's map. -/
+def foreignKeyHit (genFile : String) (lv : Level) : Bool :=
+  lv.tb.any fun f => decide (f.file ≠ genFile) && (get lv.map ⟨f.file, f.line⟩).isSome
+
+/-- The innermost mapped frame of the level is a lambda's. -/
+def siteInLambda (lv : Level) : Bool :=
+  match lv.tb.reverse.find? (fun f => (get lv.map ⟨f.file, f.line⟩).isSome) with
+  | some f => f.fn == "<lambda>"
+  | none => false
+
 end Malt.Errors
